@@ -159,3 +159,7 @@ from props import workbench as WB   # noqa: E402
 CLAUSES.append(Clause("object_history", lambda tier: WB.pda_programs(tier, "convert"), WB.run_pda, quick=300, thorough=3000,
                       rule="(conversions applied to objects with a history) " + WB.PDA_RULE))
 KNOWN_PREDICATES = {}
+
+# coverage-guided second driver (atheris / libFuzzer through Hypothesis' fuzz_one_input) for the core clauses: (clause, quick runs, thorough runs)
+from harness.covfuzz import cov_clauses  # noqa: E402
+CLAUSES += cov_clauses('C10', CLAUSES, [('push_pop', 1500, 30000), ('empty_stack', 1500, 30000), ('to_cfg', 800, 15000)])
